@@ -49,14 +49,25 @@ def _is_gpu_flag(test):
 
 
 def _is_xp_eq_np(test):
-    """`xp == np` / `get_array_module(x) == np` -- CPU arm."""
-    return (
-        isinstance(test, ast.Compare)
-        and len(test.ops) == 1
-        and isinstance(test.ops[0], ast.Eq)
-        and isinstance(test.comparators[0], ast.Name)
-        and test.comparators[0].id == "np"
-    )
+    """`xp == np` / `np == xp` / `get_array_module(x) == np` / `xp is np` -- CPU arm."""
+    if not (isinstance(test, ast.Compare) and len(test.ops) == 1 and isinstance(test.ops[0], (ast.Eq, ast.Is))):
+        return False
+    l, r = test.left, test.comparators[0]
+    return (isinstance(r, ast.Name) and r.id == "np") or (isinstance(l, ast.Name) and l.id == "np")
+
+
+def _is_xp_ne_np(test):
+    """`xp != np` / `not (xp == np)` -- GPU arm first."""
+    if isinstance(test, ast.UnaryOp) and isinstance(test.op, ast.Not):
+        return _is_xp_eq_np(test.operand)
+    if isinstance(test, ast.Compare) and len(test.ops) == 1 and isinstance(test.ops[0], (ast.NotEq, ast.IsNot)):
+        l, r = test.left, test.comparators[0]
+        return (isinstance(r, ast.Name) and r.id == "np") or (isinstance(l, ast.Name) and l.id == "np")
+    return False
+
+
+def _is_not_gpu_flag(test):
+    return isinstance(test, ast.UnaryOp) and isinstance(test.op, ast.Not) and _is_gpu_flag(test.operand) and not isinstance(test.operand, ast.BoolOp)
 
 
 class _Pruner(ast.NodeTransformer):
@@ -68,10 +79,16 @@ class _Pruner(ast.NodeTransformer):
         if _is_gpu_flag(node.test):
             self.pruned += 1
             return node.orelse or [ast.copy_location(ast.Pass(), node)]
+        if _is_not_gpu_flag(node.test):
+            self.pruned += 1
+            return node.body
         if _is_xp_eq_np(node.test) and node.orelse:
             # keep the test for def-use purposes but drop the GPU arm
             self.pruned += 1
             return node.body
+        if _is_xp_ne_np(node.test) and node.orelse:
+            self.pruned += 1
+            return node.orelse
         return node
 
 
@@ -542,6 +559,30 @@ class Model:
 # ----------------------------------------------------------------------------------------------
 # small AST helpers used by many rules
 # ----------------------------------------------------------------------------------------------
+def resolve_temp(func_node, expr, depth=0):
+    """follow single-assignment temporaries: a plain local name that the function assigns exactly once (and that is not a parameter)
+    stands for the expression it was assigned (`_r = f(x); return _r` reads as `return f(x)`)"""
+    if not isinstance(expr, ast.Name) or depth > 4:
+        return expr
+    params = {a.arg for a in func_node.args.args + func_node.args.kwonlyargs + func_node.args.posonlyargs}
+    if expr.id in params:
+        return expr
+    defs = []
+    for n in walk_no_nested(func_node):
+        if isinstance(n, ast.Assign):
+            for t in n.targets:
+                for x in ast.walk(t):
+                    if isinstance(x, ast.Name) and x.id == expr.id:
+                        defs.append(n)
+        elif isinstance(n, (ast.AugAssign, ast.AnnAssign, ast.For)) and any(isinstance(x, ast.Name) and x.id == expr.id for x in ast.walk(n.target)):
+            defs.append(n)
+        elif isinstance(n, ast.withitem) and n.optional_vars is not None and any(isinstance(x, ast.Name) and x.id == expr.id for x in ast.walk(n.optional_vars)):
+            defs.append(n)
+    if len(defs) == 1 and isinstance(defs[0], ast.Assign) and len(defs[0].targets) == 1 and isinstance(defs[0].targets[0], ast.Name):
+        return resolve_temp(func_node, defs[0].value, depth + 1)
+    return expr
+
+
 def walk_no_nested(node):
     """ast.walk that does not descend into nested function/class definitions (but yields them)."""
     stack = list(ast.iter_child_nodes(node))
